@@ -444,7 +444,9 @@ def run(ctx):
         "supporting": ["C15_restore", "C15_restored_not_rejected", "C15_undo_alternatives", "C15_complete_given_raw", "C15_complete_castling",
                        "C15_complete_pawn", "C15_pawn_move_forms", "C15_makeMove_fields", "C15_clock_zero", "C15_premises_decidable"],
         "C15_consistent_partial": "what knownInvalid guarantees for every reported un-move",
-        "statements_only": ["C15_consistent_statement (legality in the restored position and the board round trip are decided by the finder)",
+        "C15_consistent_pieces": "every reported un-move of queen/rook/bishop/knight/king (no un-castling): restored position satisfies the invariant and make+fix-up gives Q back",
+        "C15_consistent_knight_king": "for knight and king un-moves the move is legal in the restored position by the FIDE spec (full consistency for these classes)",
+        "statements_only": ["C15_consistent_statement (open: legality for slider un-moves, everything for pawn un-moves, un-promotions and un-castlings; decided by the finder)",
                             "C15_nodup_statement (duplicates are looked for in every list)"]}
 
     if not (proof_broken or disagreements or flagged or spec_flagged or crashed):
